@@ -636,7 +636,7 @@ func init() {
 			v.Nontrivial = true
 			return v
 		},
-		Rule:        "all activity-type sequences of length 0..2 (quick; 0..3 thorough) and PRNG sequences up to length 12 over the 10 activity types (sub-processes with an inner start->end), with / without preset ids, 1..3 processes per definitions built by fresh process builders, by one builder reused after Out(), or by a builder that already produced another process, layout configurations from the grid gaps {node size, size+1, 10x} x origins {0, -500, 1e6} plus the documented defaults: ids unique, every sequence flow's ends exist and list it, start/end events have no incoming/outgoing, shapes = flow nodes, edges = sequence flows, finite coordinates, edge ends on the border of their shapes, no overlapping shapes, XML round trip (C15 oracle), and the built process runs requesting the added activities once each in insertion order and completes; plus 5e5 / 2e6 raw draws from the builders' id source checked for consecutive duplicates; distinct = descriptor hash, all non-trivial",
+		Rule:        "all activity-type sequences of length 0..2 (quick; 0..3 thorough) and PRNG sequences up to length 12 over the 10 activity types (sub-processes with an inner start->end), with / without preset ids, 1..3 processes per definitions built by fresh process builders, by one builder reused after Out(), or by a builder that already produced another process, layout configurations from the grid gaps {node size, size+1, 10x} x origins {0, -500, 1e6} plus the documented defaults: ids unique, every sequence flow's ends exist and list it, start/end events have no incoming/outgoing, shapes = flow nodes, edges = sequence flows, finite coordinates, edge ends on the border of their shapes, no overlapping shapes, XML round trip (C15 oracle), and the built process runs requesting the added activities once each in insertion order and completes; plus 5e5 / 2e6 raw draws from the builders' id source checked for consecutive duplicates; distinct = descriptor hash, all non-trivial; documents taken from the definitions builder at the end of SetId/SetVersion chains",
 		Assumptions: []string{"layout is checked for the flow nodes added through the builder (top level of each process)"},
 	})
 }
